@@ -259,7 +259,7 @@ func (w *world) typedOp(f []string) string {
 		}
 		st := fmt.Sprintf("ok %d", n)
 		if err != nil {
-			st = "err"
+			st = fmt.Sprintf("err %d", n)
 		}
 
 		return st + " | " + check("Decode", t, w.tref[ti])
